@@ -116,10 +116,34 @@ theorem c20_handed_out_exact : sameSet (dedup (handedOutWritable Gen.heapFacts))
 theorem c20_handed_out_cells_never_written :
     (handedOutWritable Gen.heapFacts).all (fun h => !(Gen.facts.sites.any fun s => s.root == .global h.2)) = true := by decide +kernel
 
-/-- class S, exact: the writes into a caller-supplied `*oidc.Error` (found in the error the function was handed) -/
-theorem c20_supplied_error_writes_exact :
-    sameSet ((Gen.foreignWrites.filter fun w => w.ty == "oidc.Error" && Go.hasPrefix w.via "param:").map fun w => (w.fn, w.lhs))
-      knownSuppliedErrorWrites = true := by decide +kernel
+/-- **handed-in errors are never written**: no function of the library assigns to a field of an `*oidc.Error` that it was handed —
+    as a parameter, or found with errors.As in the chain of an error it was handed (`oidc.DefaultToServerError`,
+    `op.AuthRequestError`, `op.TryErrorRedirect`, `op.RequestError`, `op.WriteError` …).  A storage / validator may return one
+    shared `*oidc.Error` value (a sentinel error) for every request.  FALSE before the repair of F-C11e (`e.State = …`,
+    `e.SessionState = …` in AuthRequestError / TryErrorRedirect). -/
+theorem c20_handed_in_errors_never_written :
+    (Gen.foreignWrites.filter fun w => w.ty == "oidc.Error" && w.via != "recv") = [] := by decide +kernel
+
+/-- the same for every object type: what is written through a parameter / an errors.As target never has the type `oidc.Error` -/
+theorem c20_no_error_write_through_parameter (w : ForeignWrite) (hw : w ∈ Gen.foreignWrites) (hv : Go.hasPrefix w.via "param:" = true) :
+    w.ty ≠ "oidc.Error" := by
+  intro ht
+  have h : w ∈ (Gen.foreignWrites.filter fun w => w.ty == "oidc.Error" && w.via != "recv") := by
+    refine List.mem_filter.mpr ⟨hw, ?_⟩
+    have hne : w.via ≠ "recv" := by
+      intro e; rw [e] at hv; revert hv; decide
+    simp [ht, hne]
+  rw [c20_handed_in_errors_never_written] at h
+  exact absurd h (List.not_mem_nil)
+
+/-- the only writes into an `oidc.Error` that the writer did not create are the receiver writes of its three mutator methods … -/
+theorem c20_error_mutators_exact :
+    sameSet ((Gen.foreignWrites.filter fun w => w.ty == "oidc.Error").map fun w => (w.fn, w.lhs)) knownErrorMutators = true := by decide +kernel
+
+/-- … and every call of a mutator method in the library has a receiver that the calling expression / function made itself
+    (`oidc.ErrInvalidRequest().WithDescription(…)`): never an error value that was handed in, found with errors.As, or package-level -/
+theorem c20_error_mutators_called_on_fresh_values :
+    Gen.errorMutatorCalls.all (fun c => c.2.2.2 == ["fresh"]) = true := by decide +kernel
 
 /-- **every handler factory builds its per-request data per request**: no closure returned by any function of the library
     assigns, appends to or writes an element of a variable of the function that made it (nor of a local that aliases one:
@@ -136,8 +160,11 @@ theorem c20_closure_state_unchanged (prog : List Step) (m m' : Mem) (h : RunRel 
 /-- the extraction sees the handler factories, the error-answer writes, the shared cells -/
 example : "rp.AuthURLHandler" ∈ Gen.closureFactories ∧ "rp.CodeExchangeHandler" ∈ Gen.closureFactories ∧
           "op.authorizeHandler" ∈ Gen.closureFactories ∧ "op.tokenHandler" ∈ Gen.closureFactories := by decide +kernel
-example : (Gen.foreignWrites.any fun w => w.fn == "op.AuthRequestError" && w.lhs == "e.State" && w.ty == "oidc.Error") = true := by decide +kernel
-example : (Gen.foreignWrites.any fun w => w.fn == "op.TryErrorRedirect" && w.lhs == "e.SessionState" && w.ty == "oidc.Error") = true := by decide +kernel
+example : (Gen.foreignWrites.any fun w => w.fn == "oidc.Error.WithDescription" && w.lhs == "e.Description" && w.ty == "oidc.Error") = true := by decide +kernel
+example : (Gen.errorMutatorCalls.any fun c => c.1 == "op.ValidateAuthReqIDTokenHint" && c.2.2.1 == "WithParent") = true := by decide +kernel
+/-- the extraction sees a write through an errors.As target (the statement is not vacuous): `rp.…` / `op.…` functions that complete
+    an object found in an error chain would be listed with `via := "param:…"` -/
+example : (Gen.foreignWrites.any fun w => Go.hasPrefix w.via "param:") = true := by decide +kernel
 example : ({ name := "op.DefaultEndpoints", kind := "ptr", ty := "op.Endpoints" } : SharedCell) ∈ Gen.sharedCells := by decide +kernel
 
 /-- seeded change C20-F in the facts: one package-level `*oidc.Error` -/
@@ -145,8 +172,18 @@ def heapF : HeapFacts :=
   { Gen.heapFacts with cells := { name := "op.errAuthReqScopesMissing", kind := "ptr", ty := "oidc.Error" } :: Gen.sharedCells,
                        handsOut := ("op.ValidateAuthReqScopes", 1, "op.errAuthReqScopesMissing") :: Gen.handsOut }
 
-example : ("op.AuthRequestError", Cell.global "op.errAuthReqScopesMissing" ["State"]) ∈ heapHits heapF := by decide +kernel
-example : ("op.TryErrorRedirect", Cell.global "op.errAuthReqScopesMissing" ["SessionState"]) ∈ heapHits heapF := by decide +kernel
+/-- since the repair of F-C11e the error-answer functions no longer write into such a value (they complete a copy); what can still
+    write it are the mutator methods, by may-alias on the type -/
+example : ("oidc.Error.WithDescription", Cell.global "op.errAuthReqScopesMissing" ["Description"]) ∈ heapHits heapF := by decide +kernel
+example : (heapHits heapF).all (fun h => h.1 != "op.AuthRequestError" && h.1 != "op.TryErrorRedirect") = true := by decide +kernel
+/-- the facts as they were before the repair: the two functions write State / SessionState through the error they were handed -/
+def heapFUnfixed : HeapFacts :=
+  { heapF with writes :=
+      { file := "pkg/op/error.go", fn := "op.AuthRequestError", line := 48, lhs := "e.State", via := "param:3", ty := "oidc.Error", path := ["State"], op := .assign } ::
+      { file := "pkg/op/error.go", fn := "op.TryErrorRedirect", line := 106, lhs := "e.SessionState", via := "param:2", ty := "oidc.Error", path := ["SessionState"], op := .assign } ::
+      heapF.writes }
+example : ("op.AuthRequestError", Cell.global "op.errAuthReqScopesMissing" ["State"]) ∈ heapHits heapFUnfixed := by decide +kernel
+example : ("op.TryErrorRedirect", Cell.global "op.errAuthReqScopesMissing" ["SessionState"]) ∈ heapHits heapFUnfixed := by decide +kernel
 example : (heapF.handsOut.filter fun h => heapF.kindOf h.2.2 == "ptr") ≠ [] := by decide +kernel
 
 /-- seeded change C20-H in the facts: the returned closure appends to (an alias of) the factory's slice -/
